@@ -2,6 +2,7 @@ package main
 
 import (
 	"fmt"
+	"go/ast"
 	"go/types"
 	"sort"
 	"strings"
@@ -377,4 +378,121 @@ func (e *Enc) errKindAssumeDyn(c *ssa.CallCommon, res Val, resType types.Type, s
 	}
 	e.trusted["closed world for the function type "+typeKey(nt)+": its values are the functions converted to it in the loaded program"] = true
 	e.errKindAssert(res, resType, st, rb)
+}
+
+// privSentinels: the unexported package-level error variables of package pkg that are sentinels
+// (initialised once with errors.New, never stored to again).
+func (w *World) privSentinels(pkg string) []string {
+	if w.privSent == nil {
+		w.privSent = map[string][]string{}
+	}
+	if r, ok := w.privSent[pkg]; ok {
+		return r
+	}
+	var out []string
+	if p := w.pkgByPath[pkg]; p != nil {
+		for _, name := range p.Scope().Names() {
+			if ast.IsExported(name) {
+				continue
+			}
+			v, ok := p.Scope().Lookup(name).(*types.Var)
+			if !ok || !isErrorType(v.Type()) {
+				continue
+			}
+			if _, ok := w.sentinelOrd(pkg + "." + name); ok {
+				out = append(out, name)
+			}
+		}
+	}
+	w.privSent[pkg] = out
+	return out
+}
+
+// privSentinelAssume: an unexported sentinel error of package P (the package of the function under
+// verification) cannot be named by code of any other package; a function of another package can
+// only return it when it is handed it. After a call of such a function that gets no error and no
+// function value, the error results do not match P's unexported sentinels. (Go visibility; the
+// remaining route - a value of dynamic type from P reachable from the arguments and calling back -
+// is listed as assumption.)
+func (e *Enc) privSentinelAssume(fr *Frame, key string, invoke bool, c *ssa.CallCommon, args []Val, res Val, resType types.Type, st *State, rb Term) {
+	if fr == nil || fr.top == nil || fr.top.fn == nil {
+		return
+	}
+	P := fnPkgPath(fr.top.fn)
+	if !strings.HasPrefix(P, modulePath) {
+		return
+	}
+	sents := e.w.privSentinels(P)
+	if len(sents) == 0 {
+		return
+	}
+	var errs []Val
+	if res.Tuple != nil {
+		for _, r := range res.Tuple {
+			if r.Typ != nil && isErrorType(r.Typ) {
+				errs = append(errs, r)
+			}
+		}
+	} else if resType != nil && isErrorType(resType) {
+		errs = append(errs, res)
+	}
+	if len(errs) == 0 {
+		return
+	}
+	if invoke {
+		if c == nil || !c.IsInvoke() {
+			return
+		}
+		if n, ok := c.Value.Type().(*types.Named); !ok || n.Obj().Pkg() == nil || n.Obj().Pkg().Path() == P {
+			return
+		}
+		for _, impl := range e.w.implsOfIface(c.Value.Type(), c.Method) {
+			if fnPkgPath(impl) == P {
+				return
+			}
+		}
+	} else {
+		fn := e.w.funcs[key]
+		q := ""
+		if fn != nil {
+			q = fnPkgPath(fn)
+		} else if c != nil && c.StaticCallee() != nil {
+			q = fnPkgPath(c.StaticCallee())
+		}
+		if q == "" || q == P {
+			return
+		}
+		k := strings.TrimPrefix(strings.TrimPrefix(key, "("), "*")
+		if strings.HasPrefix(k, "errors.") || strings.HasPrefix(k, "fmt.Errorf") {
+			return
+		}
+	}
+	for _, a := range args {
+		if a.Typ == nil {
+			continue
+		}
+		if isErrorType(a.Typ) {
+			return
+		}
+		if _, isFn := a.Typ.Underlying().(*types.Signature); isFn {
+			return
+		}
+	}
+	for _, s := range sents {
+		src := "!Is(r, " + s + ")"
+		ex, err := ParseCExpr(src)
+		if err != nil {
+			continue
+		}
+		for _, r := range errs {
+			cl := Clause{Expr: ex, Src: src, File: "(unexported sentinel)", Trusted: true}
+			env := &Env{e: e, pkg: P, vars: map[string]Val{"r": r}, cl: cl}
+			f := e.evalBoolEnv(env, ex, st, st, cl)
+			if e.evalFailed {
+				continue
+			}
+			e.sc.Assert(implies(rb, f))
+		}
+		e.trusted["an error returned by code of another package does not match the unexported sentinel "+P[strings.LastIndex(P, "/")+1:]+"."+s+" (Go visibility; the call hands over no error and no function value, and no value handed over calls back into the package to obtain one)"] = true
+	}
 }
